@@ -6,6 +6,10 @@ func init() {
 			genC06Reconnect(p, r)
 			return
 		}
+		if r.Chance(1, 14) {
+			genC06ReconnectRace(p, r)
+			return
+		}
 		withRace(p, r, 5, func() { genC06(p, r) })
 	}
 	generators["C07"] = func(p *Plan, r *RNG) { withRace(p, r, 5, func() { genC07(p, r) }) }
@@ -194,4 +198,39 @@ func genC06Reconnect(p *Plan, r *RNG) {
 	add(Op{Actor: p.Peers[0].ID, Kind: "peer_send", At: gap(300 * ms), A: OpArgs{Target: c, Len: 40}})
 	add(Op{Actor: c2, Kind: "binding", At: gap(300 * ms)})
 	p.QuietNS = 10 * sec
+}
+
+// genC06ReconnectRace: the Allocate of the old connection is still in progress (the relay
+// address generator is slow) when the client has reconnected from the same address and
+// allocates over the new connection: two Allocate handlers for one 5-tuple at once. One
+// allocation comes of it, owned by one connection; nothing of the other stays behind.
+func genC06ReconnectRace(p *Plan, r *RNG) {
+	baseSrvConfig(p, r)
+	p.Flavor = "tcp-reconnect-race"
+	p.Cfg.Listener = "tcp"
+	p.Cfg.AllocLifeS = r.PickInt([]int{0, 30, 600})
+	addClients(p, r, 2)
+	addPeers(p, r, 1)
+	c, c2 := p.Clients[0].ID, p.Clients[1].ID
+	add := func(o Op) int {
+		p.Ops = append(p.Ops, o)
+		return len(p.Ops)
+	}
+	add(Op{Actor: c, Kind: "binding", At: gap(int64(r.Range(10, 100)) * ms)})
+	add(Op{Actor: c, Kind: "refresh", At: gap(100 * ms), A: OpArgs{Lifetime: 600}}) // learns a nonce (answered with an error: no allocation)
+	a := add(Op{Actor: c, Kind: "allocate", At: gap(300 * ms), A: OpArgs{Lifetime: -1}})
+	park := r.PickI64([]int64{300 * ms, sec, 3 * sec})
+	cls := r.Pick([]string{"cb:AllocatePacketConn", "cb:AllocatePacketConn", "cb:Auth", "cb:Quota", "lock"})
+	p.Stalls = append(p.Stalls, Stall{M: Match{Class: cls, Args: "*", Nth: 1}, ParkNS: park, AfterOp: a})
+	add(Op{Actor: c, Kind: "tcp_reconnect", At: gap(r.PickI64([]int64{100 * ms, park / 2}))})
+	add(Op{Actor: c, Kind: "allocate", At: gap(int64(r.Range(1, 100)) * ms), A: OpArgs{Lifetime: -1}})
+	add(Op{Actor: "", Kind: "wait", At: gap(park + sec)})
+	add(Op{Actor: c, Kind: "refresh", At: gap(300 * ms), A: OpArgs{Lifetime: 600}})
+	add(Op{Actor: c, Kind: "createperm", At: gap(300 * ms), A: OpArgs{Peer: p.Peers[0].Addr}})
+	add(Op{Actor: p.Peers[0].ID, Kind: "peer_send", At: gap(300 * ms), A: OpArgs{Target: c, Len: 40}})
+	add(Op{Actor: c2, Kind: "allocate", At: gap(200 * ms), A: OpArgs{Lifetime: -1}})
+	if r.Chance(1, 2) {
+		add(Op{Actor: c, Kind: "refresh", At: gap(500 * ms), A: OpArgs{Lifetime: 0}})
+	}
+	p.QuietNS = int64(r.PickInt([]int{10, 700})) * sec
 }
